@@ -46,7 +46,7 @@ class RandomPolicy:
     """Seeded random environment: application sends and datagram fates."""
 
     def __init__(self, seed, p_send=0.35, p_loss=0.1, p_dup=0.05, p_replay=0.02, maxdelay=12, lens=None, retries=(0, 0, -1, -1, 1),
-                 p_cb=0.7, replay_back=400, burst=0.0, burst_lens=(4, 4, 5)):
+                 p_cb=0.7, replay_back=400, burst=0.0, burst_lens=(4, 4, 5), p_forge=0.0, p_stall=0.0, burst_retries=(0, 0, -1), mindelay=0):
         self.rnd = random.Random(seed)
         self.p_send, self.p_loss, self.p_dup, self.p_replay, self.maxdelay = p_send, p_loss, p_dup, p_replay, maxdelay
         self.lens = lens
@@ -54,27 +54,43 @@ class RandomPolicy:
         self.p_cb = p_cb
         self.replay_back = replay_back
         self.burst = burst
+        self.p_forge = p_forge
+        self.p_stall = p_stall
+        self.burst_retries = list(burst_retries)
+        self.mindelay = mindelay
+        self.stall_until = {}
         self.burst_lens = list(burst_lens)
 
     def sends(self, tick, name, world):
         out = []
         P = world.C.Packet
         lens = self.lens or [4, 4, 5, 20, 100, 600, 1200, P.MAX_PAYLOAD_SIZE - 3, P.MAX_PAYLOAD_SIZE - 2, P.MAX_PAYLOAD_SIZE - 1, P.MAX_PAYLOAD_SIZE,
-                             P.MAX_PAYLOAD_SIZE + 1, 2000, P.MAX_FRAGMENT_SIZE + P.MAX_PAYLOAD_SIZE - 7, P.MAX_FRAGMENT_SIZE + P.MAX_PAYLOAD_SIZE - 6, 3000, 5000]
+                             P.MAX_PAYLOAD_SIZE + 1, 2000, P.MAX_FRAGMENT_SIZE + P.MAX_PAYLOAD_SIZE - 7, P.MAX_FRAGMENT_SIZE + P.MAX_PAYLOAD_SIZE - 6,
+                             P.MAX_FRAGMENT_SIZE + P.MAX_PAYLOAD_SIZE - 5, P.MAX_FRAGMENT_SIZE + P.MAX_PAYLOAD_SIZE - 3, P.MAX_FRAGMENT_SIZE + P.MAX_PAYLOAD_SIZE - 1,
+                             2 * P.MAX_FRAGMENT_SIZE + P.MAX_PAYLOAD_SIZE - 2, P.MAX_FRAGMENT_SIZE + P.MAX_PAYLOAD_SIZE, 3000, 5000]
         while self.rnd.random() < self.p_send:
             out.append((self.rnd.choice(lens), self.rnd.choice(self.retries), self.rnd.random() < self.p_cb))
         if self.burst and self.rnd.random() < self.burst:
             n = self.rnd.choice([40, 260, 300])
-            out += [(self.rnd.choice(self.burst_lens), self.rnd.choice([0, 0, -1]), False) for _ in range(n)]
+            out += [(self.rnd.choice(self.burst_lens), self.rnd.choice(self.burst_retries), False) for _ in range(n)]
         return out
 
     def fate(self, tick, name, dgid, world):
         if self.rnd.random() < self.p_loss:
             return []
-        f = [self.rnd.randint(0, self.maxdelay)]
+        f = [self.rnd.randint(self.mindelay, max(self.mindelay, self.maxdelay))]
         if self.rnd.random() < self.p_dup:
-            f.append(self.rnd.randint(0, self.maxdelay))
+            f.append(self.rnd.randint(self.mindelay, max(self.mindelay, self.maxdelay)))
         return f
+
+    def stalled(self, tick, name):
+        """a frame hitch: the application does not call into the library for a few ticks (the clock runs on)"""
+        if self.stall_until.get(name, -1) >= tick:
+            return True
+        if self.p_stall and self.rnd.random() < self.p_stall:
+            self.stall_until[name] = tick + self.rnd.randint(2, 6)
+            return True
+        return False
 
     def replays(self, tick, name, world):
         n = len(world.emitted[name])
@@ -321,6 +337,70 @@ class ConnWorld:
                             ddrop=e.stats.dropped - d0, drecv=e.stats.received - r0))
         return res
 
+    # -- attacker: a datagram not produced with the session key, injected at this point of the history (C01)
+    def forge(self, name, rnd):
+        import struct as st
+        C = self.C
+        e = self.ends[name]
+        src = "s" if name == "c" else "c"
+        kind = rnd.choice(["bitflip", "bitflip-hdr", "truncate", "crc-plain", "crc-hello", "otherkey", "rewrite-ack", "random"])
+        gen = self.emitted[src][-rnd.randint(1, min(40, len(self.emitted[src]))):][0] if self.emitted[src] else None
+        cur = int(e.bitfield_pkt.current_seqnum)
+        magic = b"FSOS" if e.isServer else b"FSOC"
+        if kind in ("bitflip", "bitflip-hdr", "truncate", "rewrite-ack") and gen is None:
+            kind = "random"
+        if kind == "bitflip":
+            t = bytearray(gen)
+            b = rnd.randrange(20 * 8, len(gen) * 8)
+            t[b // 8] ^= 1 << (b % 8)
+            raw = bytes(t)
+        elif kind == "bitflip-hdr":
+            t = bytearray(gen)
+            b = rnd.randrange(0, 20 * 8)
+            t[b // 8] ^= 1 << (b % 8)
+            raw = bytes(t)
+        elif kind == "truncate":
+            raw = gen[:rnd.randrange(0, len(gen))]
+        elif kind == "rewrite-ack":
+            t = bytearray(gen)
+            t[16:20] = b"\xff\xff\xff\xff"
+            t[10:12] = st.pack(">H", max((int(k) for k in e.pending_acks), default=1))
+            body = bytes(t[:20 + st.unpack(">H", t[13:15])[0]])
+            raw = body + st.pack(">L", impl.mod("crypto").crc32(body)) if rnd.random() < 0.5 else bytes(t)
+        elif kind in ("crc-plain", "crc-hello"):
+            typ = rnd.choice([1, 2]) if kind == "crc-hello" else rnd.choice([3, 4, 5, 6, 7])
+            n = rnd.choice([0, 1, 2, 3])
+            hdr = C.PacketHeader.create(not e.isServer, int(self.vt.time()), C.PacketType(typ), C.SeqNum((cur + rnd.randint(1, 9) - 1) % 65535 + 1),
+                                        C.SeqNum(max((int(k) for k in e.pending_acks), default=1)), 0xFFFFFFFF)
+            msgs = [C.PendingMessage(C.SeqNum((int(e.bitfield_msg.current_seqnum) + 500 + i) % 65535 + 1), C.PacketType(rnd.choice([5, 6, 6, typ])), b"EVIL%d" % i, None, C.RetryMode.NONE) for i in range(n)]
+            raw = C.Packet.create(hdr, msgs).to_bytes(None)
+        elif kind == "otherkey":
+            from cryptography.hazmat.primitives.ciphers.aead import AESGCM
+            hdr = C.PacketHeader.create(not e.isServer, int(self.vt.time()), C.PacketType.APP, C.SeqNum((cur + 3 - 1) % 65535 + 1), C.SeqNum(1), 0)
+            pkt = C.Packet.create(hdr, [C.PendingMessage(C.SeqNum(7), C.PacketType.APP, b"otherkey", None, C.RetryMode.NONE)])
+            h = pkt.hdr.to_bytes()
+            raw = h + AESGCM(b"z" * 16).encrypt(h[:12], pkt.msg, h)
+        else:
+            raw = magic + bytes(rnd.getrandbits(8) for _ in range(rnd.randint(0, 80)))
+        if gen is not None and raw == gen:
+            return
+        from gateworld import snapshot
+        before = snapshot(e)
+        ncb = len(self.cur.get("cbs", []))
+        self.begin(e)
+        d0 = e.stats.dropped
+        try:
+            hdr = C.PacketHeader.from_bytes(e.isServer, raw)
+            try:
+                res = "true" if e._recv_datagram(hdr, raw) else "false"
+            except Exception as ex:
+                res = "exc"
+        except Exception:
+            res = "hdr"
+        after = snapshot(e)
+        self.ev.append(dict(ev="forge", e=name, now=self.now(), kind=kind, res=res, changed=sorted(k for k in after if after[k] != before[k]),
+                            cbs=len(self.cur["cbs"]), acked=len(self.cur["acked"]), timedout=len(self.cur["timedout"])))
+
     def left(self):
         return {n: dict(out=len(e.outgoing_messages), pend=len(e.pending_acks), ptx=len(e.pending_fragments), retry=len(e.pending_retry_msg))
                 for n, e in self.ends.items()}
@@ -337,10 +417,14 @@ class ConnWorld:
                 if not healed:
                     for ln, retry, hascb in policy.sends(tick, name, self):
                         self.app_send(name, ln, retry, hascb)
+                if not healed and getattr(policy, "stalled", None) and policy.stalled(tick, name):
+                    continue
                 self.endpoint_tick(name, tick, policy, healed)
                 if not healed:
                     for dgid in policy.replays(tick, name, self):
                         self.flight.append((self.vt.us, name, dgid))
+                    if getattr(policy, "p_forge", 0) and policy.rnd.random() < policy.p_forge:
+                        self.forge(name, policy.rnd)
             due = [f for f in self.flight if f[0] <= self.vt.us]
             self.flight = [f for f in self.flight if f[0] > self.vt.us]
             due.sort(key=lambda f: (f[0], rnd.random()))
